@@ -67,6 +67,17 @@ Fixpoint glob_loop_x (fuel : nat) (i : nat) (pat body : bytes) (not : bool) (dep
 Definition keeps_exec (dep : N) (keeps : nat -> Prop) : Prop := forall body s s' r m,
   exec body s = (s', r) -> keeps m -> In m (mids dep (lns (lb s))) -> In m (mids dep (lns (lb s'))).
 
+(* ghost identities are unique and below nextid (lbuf_replace hands out nextid, nextid+1, ...) *)
+Definition uniq (l : lbuf) : Prop :=
+  NoDup (map lid (lns l)) /\ Forall (fun i => (i < nextid l)%nat) (map lid (lns l)).
+(* what one step does to identities and marks: uniqueness is kept, nextid only grows, a mark is dropped only together
+   with its line, and an identity that has left the buffer never comes back *)
+Definition pres_lb (dep : N) (l l' : lbuf) : Prop :=
+  uniq l -> uniq l' /\ (nextid l <= nextid l')%nat /\
+  (forall m, In m (mids dep (lns l)) -> In m (map lid (lns l')) -> In m (mids dep (lns l'))) /\
+  (forall m, (m < nextid l)%nat -> In m (map lid (lns l')) -> In m (map lid (lns l))).
+Definition pres_exec (dep : N) : Prop := forall body s s' r, exec body s = (s', r) -> pres_lb dep (lb s) (lb s').
+
 (* what lbuf_replace guarantees of any command list (marks only travel with surviving lines, new lines are
    born unmarked) and tracks_low: no still-marked line ends up above min(i, xrow') *)
 Definition good_exec (dep : N) : Prop := forall body s s' r,
